@@ -5,7 +5,7 @@ import FV.Drv.Alloc
   mode `Q` at `Rat` (the literals are the exact values of the doubles; `math.sqrt` is answered by the
   token `<sqrt-answer>` of the request, i.e. it is a parameter of the model).
 -/
-open FV FV.Drv
+open FV FV.Alloc FV.Drv
 
 def envF (_ : Float) : Env Float := ⟨1e-12, 0.01, Float.sqrt⟩
 def envQ (s : Rat) : Env Rat :=
